@@ -14,7 +14,7 @@ Notation netlist := (netlist K).
 
 (* the specification of "independent sources killed and initial conditions
    zero": the source value parameters of every component vanish *)
-Definition zero_par (pr : pname -> K) : pname -> K := fun n => match n with pIsc | pVoc => f0 | _ => pr n end.
+Definition zero_par (pr : pname -> K) : pname -> K := fun n => match n with pIsc | pVoc | pI01 | pI02 => f0 | _ => pr n end.
 Definition zero_ctx (c : sctx K) : sctx K :=
   SCtx K (kind c) (typ c) (p0 c) (p1 c) (p2 c) (p3 c) (c0 c) (c1 c) (bown c) (bextra c) (bctrl c) (bL1 c) (bL2 c)
        (has_ic c) (ctrl_is_vsrc c) (has_arg1 c) (tp_has_src c) (zero_par (par c)).
@@ -32,7 +32,9 @@ Definition m_short kd p m f : cname * sctx K := (cV, ctx2 kd p m f f0 f0 f0).
 Definition is_indep (cl : cname) : bool := match cl with cV | cI => true | _ => false end.
 Definition drop_ic (c : sctx K) : sctx K :=
   SCtx K (kind c) (typ c) (p0 c) (p1 c) (p2 c) (p3 c) (c0 c) (c1 c) (bown c) (bextra c) (bctrl c) (bL1 c) (bL2 c)
-       false (ctrl_is_vsrc c) (has_arg1 c) (tp_has_src c) (par c).
+       false (ctrl_is_vsrc c) (has_arg1 c) (tp_has_src c)
+       (* the initial currents a mutual inductance reads from its two inductors go with their initial conditions *)
+       (fun n => match n with pI01 | pI02 => f0 | _ => par c n end).
 (* NetlistMixin.kill() -> _kill(independent sources + ['ICs']): V -> W (modelled
    as a 0 V source: same constraint, its current is a free unknown), I -> O,
    control sources keep their place with value 0 (_zero); with [ics] the
